@@ -10,6 +10,10 @@ import (
 	"encoding/hex"
 	"fmt"
 	"math/rand"
+	"os"
+	"strconv"
+	"sync"
+	"sync/atomic"
 
 	"bngverif/hx"
 
@@ -70,7 +74,22 @@ func family(r *rand.Rand, base []byte) [][]byte {
 	return out
 }
 
+// genStress emits the concurrency sequences (only when C20_STRESS is set; the check runs them on a -race build).
+func genStress(r *rand.Rand, tier string, emit func([]string)) {
+	n := 5
+	if tier == "thorough" {
+		n = 50
+	}
+	for i := 0; i < n; i++ {
+		emit([]string{"new", fmt.Sprintf("stress %d 8 2000", r.Int63n(1<<31))})
+	}
+}
+
 func (comp) Gen(r *rand.Rand, tier string, emit func([]string)) {
+	if os.Getenv("C20_STRESS") != "" {
+		genStress(r, tier, emit)
+		return
+	}
 	rounds, nRand := 3, 300
 	if tier == "thorough" {
 		rounds, nRand = 40, 6000
@@ -113,6 +132,37 @@ func (comp) Gen(r *rand.Rand, tier string, emit func([]string)) {
 	}
 }
 
+// stress: g goroutines compute keys and hashes of one shared set of circuit-ids concurrently and compare them with
+// the values computed sequentially beforehand (the functions must be pure; shared input slices must not be written).
+func stress(seed int64, g, n int) string {
+	r := rand.New(rand.NewSource(seed))
+	ids := make([][]byte, 64)
+	keys := make([]ebpf.CircuitIDKey, len(ids))
+	hashes := make([]uint64, len(ids))
+	for i := range ids {
+		ids[i] = randBytes(r, r.Intn(65))
+		keys[i] = ebpf.MakeCircuitIDKey(ids[i])
+		hashes[i] = ebpf.HashCircuitID(ids[i])
+	}
+	var anomalies int64
+	var wg sync.WaitGroup
+	for w := 0; w < g; w++ {
+		wg.Add(1)
+		go func(w int) {
+			defer wg.Done()
+			rr := rand.New(rand.NewSource(seed + 1 + int64(w)))
+			for j := 0; j < n; j++ {
+				i := rr.Intn(len(ids))
+				if ebpf.MakeCircuitIDKey(ids[i]) != keys[i] || ebpf.HashCircuitID(ids[i]) != hashes[i] {
+					atomic.AddInt64(&anomalies, 1)
+				}
+			}
+		}(w)
+	}
+	wg.Wait()
+	return fmt.Sprintf("anomalies %d", anomalies)
+}
+
 type run struct{ started bool }
 
 func (comp) NewRun() hx.Run { return &run{} }
@@ -123,6 +173,12 @@ func (r *run) Do(op string) string {
 	if f[0] == "new" {
 		r.started = true
 		return "ok"
+	}
+	if r.started && f[0] == "stress" && len(f) == 4 {
+		seed, _ := strconv.ParseInt(f[1], 10, 64)
+		g, _ := strconv.Atoi(f[2])
+		n, _ := strconv.Atoi(f[3])
+		return stress(seed, g, n)
 	}
 	if !r.started || len(f) != 2 {
 		return "badop"
